@@ -150,7 +150,7 @@ def _ftb_scan():
             if not fn.endswith('.c') or fn in ('entenc.c', 'entdec.c'):
                 continue
             src = open(os.path.join(root, fn), errors='replace').read()
-            src = re.sub(r'/\*.*?\*/', lambda m: ' ' * len(m.group(0)), src, flags=re.S)
+            src = re.sub(r'/\*.*?\*/', lambda m: re.sub(r'[^\n]', ' ', m.group(0)), src, flags=re.S)
             for m in re.finditer(r'\bec_(enc|dec)_icdf\s*\(', src):
                 args = _call_args(src, m.end() - 1)
                 want_n = 4 if m.group(1) == 'enc' else 3
